@@ -15,8 +15,12 @@ from mc import runner as RU
 from mc import spec as S
 
 
+_ANON: t.Dict[str, str] = {}
+
+
 def nid(n: str) -> str:
-    return f'processor__{n}'
+    # nodes declared without a `name` get 'processor__<module>_<class>' (set per spec by expected())
+    return _ANON.get(n) or f'processor__{n}'
 
 
 def expected(spec: dict) -> dict:
@@ -24,6 +28,10 @@ def expected(spec: dict) -> dict:
     nodes: t.Dict[str, dict] = {}
     edges: t.Dict[tuple, dict] = {}
     inp, out = spec['input'], spec['output']
+    _ANON.clear()
+    for n_, nd_ in spec['nodes'].items():
+        if nd_.get('anon'):
+            _ANON[n_] = f'processor__mcgen_{S.spec_hash(spec)}_{n_}'
     seen = {out}
     stack = [out]
     real: t.Set[str] = {inp}
@@ -162,6 +170,22 @@ def variants(spec: dict, tier: str) -> t.Iterator[t.Tuple[str, dict]]:
     inh = S.with_inheritance(spec)
     if inh is not None:
         yield 'class-inheritance', inh
+    # nodes that declare no marks: a node whose only mark is Input(<input node>) loses it; the builder must link it to the
+    # input node implicitly (and only such nodes)
+    ml = [n for n, nd in spec['nodes'].items() if n != spec['input'] and not nd.get('rec')
+          and [p[1:] for p in nd['params'] if p[1] != 'plain'] == [['in', spec['input']]]]
+    for n in ml[: (2 if tier == 'quick' else 99)] + (['*'] if len(ml) >= 2 else []):
+        sp = json.loads(json.dumps(spec))
+        for m in (ml if n == '*' else [n]):
+            sp['nodes'][m]['params'] = [p for p in sp['nodes'][m]['params'] if p[1] == 'plain']
+        yield f'markless-{n}', sp
+    # node classes without a `name` attribute (ids derived from module and class name): one node, and all nodes
+    plain_cls = [n for n, nd in spec['nodes'].items() if not nd.get('generic') and not nd.get('instance_of')]
+    for n in plain_cls[:1] + ['*']:
+        sp = json.loads(json.dumps(spec))
+        for m in (plain_cls if n == '*' else [n]):
+            sp['nodes'][m]['anon'] = True
+        yield f'anon-{n}', sp
     shared = S.share_switch_names(spec)
     if shared is not None:
         yield 'shared-named-switch', shared
@@ -215,7 +239,7 @@ def work(arg: tuple) -> dict:
 
 
 def run(prop: str, tier: str, seed: int) -> dict:
-    fams = ['plain', 'switch', 'oneof', 'rec', 'mix', 'overlap', 'recx', 'switchx', 'oneofx'] + ([] if tier == 'quick' else ['plain7'])
+    fams = ['plain', 'switch', 'oneof', 'rec', 'mix', 'overlap', 'twice', 'recx', 'switchx', 'oneofx'] + ([] if tier == 'quick' else ['plain7'])
     items = [(tier, 'corpus', sp) for sp in corpus.specs()]
     for f in fams:
         items += [(tier, f, sp) for sp in EN.family(f, tier)]
